@@ -36,6 +36,21 @@ def main():
             if r['violated'] != inv:
                 raise V.ToolError(f'negative control: {inv} was not violated by the pinned-code transcription')
             print(f'[setup] negative control {inv}: rejected as expected')
+        # 2b. vacuity guard: with small constants every action / disjunct of every bounded model is taken
+        cov_models = [
+            ('MC_Interval', dict(Universe='small', Alts=1, UseImpl=False, Emit=False), ['InvIntersect']),
+            ('MC_Version', dict(Mode='order', Size='small', Emit=False), ['InvReflexive']),
+            ('MC_Version', dict(Mode='triples', Size='small', Emit=False), ['InvTransitive']),
+            ('MC_VText', dict(SymbolSet='a', MaxLive=4, MaxExtra=1, Emit=False), ['InvFold']),
+            ('MC_Syntax', dict(Mode='alts', Size='small', Emit=False, CaseOp='rparse', Slice=0, Of=64), ['InvFoldMeans']),
+            ('MC_Api', dict(MaxOps=2, Alts=1, Emit=False, Slice=0, Of=32, Of2=32), ['InvIdeal']),
+            ('MC_Tokens', dict(MaxLen=2, Emit=False, Slice=0, Of=1), ['InvSpecTotal', 'InvRangeTextTotal']),
+        ]
+        for i, (mod, consts, invs) in enumerate(cov_models):
+            r = V.run_model(wd, f'cov{i}_{mod}', mod, consts, invs, workers=8, coverage=True)
+            if r['coverage_zero']:
+                raise V.ToolError(f'vacuity: actions never taken in {mod} {consts}: {r["coverage_zero"]}')
+            print(f'[setup] coverage {mod} {consts.get("Mode", "")}: {r["distinct"]} states, every action taken')
         # 3. corrupted-trace controls
         import controls
         controls.run(V, wd)
